@@ -169,7 +169,7 @@ def samples_case(case, counters, viol, nontrivial):
                     if mask[3]:
                         kw["parameters"] = ["m2/m1", "spin_1.z", "100%"] if not flat else ["mass", "θ_jn", "Δφ/2π"]  # names are text: not ASCII, ratios, components
                     if case["cls"] == "SMCSamples":
-                        kw.update(beta=0.25, log_evidence=-1.5 if mask[0] else None, log_evidence_error=0.1 if mask[0] else None)
+                        kw.update(beta=0.3 if mask[1] else 0.0, log_evidence=-1234.5678 if mask[0] else None, log_evidence_error=0.1 if mask[0] else None)  # not exactly representable in float32; and zero
                     s = C(**kw)
                     cell = f"{case['cls']}|{xpn}|{dt}|{mask}|flat={flat}"
                     counters["samples_roundtrips"] += 1
